@@ -41,25 +41,31 @@ RESUME = ("continue", "next", "stepIn", "stepOut")
 
 
 def model_check(tier, result):
+    """The bounded instances of the design model (run next to the replay): the intended design with and without
+    inspection requests, the design as coded minus its named findings, and the deviations that must be refuted."""
     try:
         cfg = "MCDapStop" if tier == "quick" else "MCDapStop_thorough"
-        mc = run_tlc("MCDapStop", cfg, workers=4 if tier == "quick" else 8, coverage=True, timeout=3000, tag=f"mc-c17dap-{cfg}")
+        with ThreadPoolExecutor(max_workers=4) as ex:
+            f_mc = ex.submit(run_tlc, "MCDapStop", cfg, workers=4 if tier == "quick" else 8, coverage=True, timeout=3000, tag=f"mc-c17dap-{cfg}")
+            f_insp = ex.submit(run_tlc, "MCDapStop", "MCDapStop_inspect", workers=2, coverage=True, timeout=1800, tag="mc-c17dap-inspect")
+            f_coded = ex.submit(run_tlc, "MCDapStop", "MCDapStop_ascoded", workers=2, timeout=1800, tag="mc-c17dap-ascoded")
+            f_dev = {dev: ex.submit(run_tlc, "MCDapStop", dev, workers=1, timeout=900, allow_violation=True, tag=f"mc-c17dap-{dev}")
+                     for dev in MUST_VIOLATE}
+            mc, insp, coded = f_mc.result(), f_insp.result(), f_coded.result()
+            devs = {dev: f.result() for dev, f in f_dev.items()}
         cov = mc.get("action_coverage", {})
         for a in NEED_ACTIONS:
             if cov.get(a, 0) == 0:
                 raise ToolError(f"vacuous model run: action {a} never taken ({cov})")
-        insp = run_tlc("MCDapStop", "MCDapStop_inspect", workers=4, coverage=True, timeout=1800, tag="mc-c17dap-inspect")
         for a in NEED_ACTIONS_INSPECT:
             if insp.get("action_coverage", {}).get(a, 0) == 0:
                 raise ToolError(f"vacuous model run: action {a} never taken ({insp.get('action_coverage')})")
             cov[a] = insp["action_coverage"][a]
-        coded = run_tlc("MCDapStop", "MCDapStop_ascoded", workers=4, timeout=1800, tag="mc-c17dap-ascoded")
         refuted = {}
         for dev, msg in MUST_VIOLATE.items():
-            r = run_tlc("MCDapStop", dev, workers=2, timeout=900, allow_violation=True, tag=f"mc-c17dap-{dev}")
-            if msg not in r["stdout"]:
-                raise ToolError(f"the deviation model {dev} does not produce '{msg}' (the property would be vacuous):\n{r['stdout'][-1500:]}")
-            refuted[dev] = msg.split()[-3] if msg.startswith("Temporal") else msg.split()[1]
+            if msg not in devs[dev]["stdout"]:
+                raise ToolError(f"the deviation model {dev} does not produce '{msg}' (the property would be vacuous):\n{devs[dev]['stdout'][-1500:]}")
+            refuted[dev] = msg.split()[2] if msg.startswith("Temporal") else msg.split()[1]
         result.update(distinct=mc["distinct"] + coded["distinct"] + insp["distinct"], generated=mc["generated"] + coded["generated"] + insp["generated"],
                       model_distinct=mc["distinct"], ascoded_distinct=coded["distinct"], inspect_distinct=insp["distinct"], depth=mc["depth"],
                       action_coverage={a: cov[a] for a in NEED_ACTIONS + NEED_ACTIONS_INSPECT}, refuted=refuted, wall_s=round(mc["wall_s"], 1))
